@@ -509,7 +509,7 @@ def run_stft_trace(chk, rnd):
             chk.violation(key, desc + " | %r" % (e["src"],), {"kind": "stft-trace", "src": e["src"]})
     events = [e for e in events if e["ev"] != "failed"]
     src = {e["id"]: e.pop("src") for e in events}
-    rejected, done = pfhelp.validate_parallel("Trace_Stft", events, nproc=4, timeout=900, chk=chk)
+    rejected, done = pfhelp.validate_parallel("Trace_Stft", events, nproc=4, timeout=900, heap="2g", chk=chk)
     chk.validated += done
     chk.notes["stft_trace_events"] = done
     for e, fl in rejected:
@@ -529,16 +529,16 @@ def run(chk):
     thorough = chk.tier == "thorough"
     os.makedirs(SCR, exist_ok=True)
     res = {}
-    jobs = [("fft", "Gen_Fft", "Gen_Fft_mid.cfg" if thorough else "Gen_Fft_quick.cfg", dict(workers=14 if thorough else 9, timeout=3000)),
-            ("stft", "Gen_Stft", "Gen_Stft_full.cfg" if thorough else "Gen_Stft_quick.cfg", dict(workers=4, timeout=1500)),
-            ("defs", "FftDefs", "FftDefs.cfg", dict(workers=1, timeout=900)),
-            ("neg-defs", "FftDefs", "Neg_FftDefs.cfg", dict(workers=1, timeout=900))]
+    jobs = [("fft", "Gen_Fft", "Gen_Fft_mid.cfg" if thorough else "Gen_Fft_quick.cfg", dict(workers=14 if thorough else 9, timeout=3000, heap="3g")),
+            ("stft", "Gen_Stft", "Gen_Stft_full.cfg" if thorough else "Gen_Stft_quick.cfg", dict(workers=4, timeout=1500, heap="2g")),
+            ("defs", "FftDefs", "FftDefs.cfg", dict(workers=1, timeout=900, heap="2g")),
+            ("neg-defs", "FftDefs", "Neg_FftDefs.cfg", dict(workers=1, timeout=900, heap="2g"))]
     th = [threading.Thread(target=_tlc, args=(res, name, mod, cfg), kwargs=kw) for name, mod, cfg, kw in jobs]
     for t in th:
         t.start()
     check_names(chk)
     negs = {}
-    nth = [threading.Thread(target=_tlc, args=(res, "neg-" + v, "Gen_Stft", "Neg_Stft_%s.cfg" % v), kwargs=dict(workers=1, timeout=600))
+    nth = [threading.Thread(target=_tlc, args=(res, "neg-" + v, "Gen_Stft", "Neg_Stft_%s.cfg" % v), kwargs=dict(workers=1, timeout=600, heap="2g"))
            for v in ("noshift", "parity", "norecentre")]
     for t in nth:
         t.start()
